@@ -1,4 +1,5 @@
 import WfProofs.ReplayResume
+import WfModel.GenReplay
 /-!
 # C13 — a server restart at any persisted point resumes without losing work
 
@@ -550,6 +551,44 @@ theorem C13_restart_at_most_once (registered : List Nat) (resumes : Nat → Bool
               · rfl
             rw [hc] at ih
             exact ih
+
+/-! ## the source, as re-read on this run -/
+
+def C13.statusStr : Status → String
+  | .running => "running" | .completed => "completed" | .failed => "failed" | .cancelled => "cancelled"
+
+def C13.finalStr : Option Final → String
+  | none => "none"
+  | some f => C13.statusStr f.status
+
+/-- **C13 (source shape)**: the tables and the control shape the model is cut along, as extracted from
+the current sources (`harness/gen/replay.py` → `WfModel/GenReplay.lean`): the start query is
+"running, registered workflow, not idle" and is the model's `startQuery`; the statuses returned by
+`handler_status_from_exit_command`, in source order, are the model's `statusOfExit` on (idle release,
+completion, step failure, cancel, timeout); `replay_ticks_stream` rewinds first, reduces every tick once,
+never leaves its loop early and remembers exactly the three exit command classes; `_process_tick`
+persists the tick before it executes its commands; `context_from_ticks` validates before replaying. -/
+theorem C13_source_shape :
+    GenReplay.startStatusIn = ["running"] ∧ GenReplay.startIsIdle = some false ∧ GenReplay.startFiltersWorkflow = true ∧
+    (∀ (reg : List Nat) (h : HandlerRow), startQuery reg h =
+      (GenReplay.startStatusIn.contains (C13.statusStr h.status) && (reg.contains h.wf && GenReplay.startFiltersWorkflow) &&
+        (GenReplay.startIsIdle == some h.idle))) ∧
+    GenReplay.exitStatuses =
+      [C13.finalStr (statusOfExit (.completeRun .idleReleased)),
+       C13.finalStr (statusOfExit (.completeRun (.event { ty := 1, kind := .stop, uid := 7 }))),
+       C13.finalStr (statusOfExit (.failWorkflow 0 0)),
+       C13.finalStr (statusOfExit (.halt .cancelledByUser)),
+       C13.finalStr (statusOfExit (.halt .timeout))] ∧
+    GenReplay.exitClasses = ["CommandCompleteRun", "CommandFailWorkflow", "CommandHalt"] ∧
+    GenReplay.replayRewindsFirst = true ∧ GenReplay.replayReducesPerTick = 1 ∧ GenReplay.replayLoopHasEarlyExit = false ∧
+    GenReplay.persistBeforeCommands = true ∧ GenReplay.validatesBeforeReplay = true := by
+  refine ⟨by decide, by decide, by decide, ?_, by decide, by decide, by decide, by decide, by decide, by decide, by decide⟩
+  intro reg h
+  have h1 : GenReplay.startStatusIn = ["running"] := by decide
+  have h2 : GenReplay.startIsIdle = some false := by decide
+  have h3 : GenReplay.startFiltersWorkflow = true := by decide
+  rw [h1, h2, h3]
+  cases hs : h.status <;> cases hi : h.idle <;> simp [startQuery, hs, hi, C13.statusStr]
 
 /-! ## non-vacuity -/
 
